@@ -62,6 +62,22 @@ TEXT = {
  "C14": ("Theorems between the one-shot parser model (request.rs) and the byte-at-a-time specification instantiated with the crate's own line parsers: oneshot_sound (one-shot accepts => within the line and payload limits the first delivery is the identical request), conn_complete (exactly one delivery with nothing left over and not a GET with a body => one-shot accepts with the same result), get_with_body_rejected (that exception is real), max_rejects / max_irrelevant. "
          "Key lemmas: the first CRLFCRLF after the request line is where the line scan meets its first empty line; split on CRLF = iterated first-CRLF split; block UTF-8 iff its lines are; an accepted request line has at least 14 bytes. Correspondence in both directions on the implementation alone and against both models.",
          "Trusted: Lean kernel; hand models of Request::try_from and of the connection checked differentially; the connection side is tied to the specification by C01."),
+ "C07": ("Theorems over the reactive server model with ghost connection identities: under the server invariant (preserved by every poll over every admissible batch with any read/write results, by respond and by flush — C10.requests_inv/respond_inv/flush_inv) an outstanding token's descriptor identifies exactly the connection INSTANCE that yielded it (outstanding_token_identifies: a connection cannot be reaped, hence its descriptor not reused, while a token is outstanding); "
+         "respond_routes: the response goes to the end of that instance's queue or is dropped if it is closed, every other connection is untouched; respond_unknown_dropped / respond_closed_dropped; event_frame; wrote_own_bytes (bytes written to a client are the next unsent bytes of its own connection); server_reply_to_own_input (400/500 go to the connection whose input caused them). "
+         "Correspondence: every poll of random and aimed histories (close with requests in flight, reconnect with descriptor reuse, late answers) compared with the model; per-client tag oracle on the real sockets.",
+         "Trusted: Lean kernel; hand model of server.rs (HashMap as list with unique keys) checked differentially on the real kernel; environment hypotheses E1, E6, A1 are hypotheses of the theorems (EvOK), observed to hold in every history."),
+ "C08": ("Theorems (safety core): respond to an outstanding token never fails (respond_ok); a successful read yields exactly the connection's deliveries for that read, once, and counts them in flight (read_yields_deliveries, with C01 for what those deliveries are); respond_arms_out; interest_follows_work (something to write => registered for OUT; registered for IN => nothing to write) as part of the preserved server invariant; write_progress (every accepted write sends the next unsent bytes and the connection returns to IN exactly when nothing is left); flush_delivers (if the sockets accept everything, a flush sends exactly the unsent bytes); stale_out_repaired (F4). With C09.poll_returns: polling never fails. "
+         "NOT a theorem: that the epoll fd signals while work is outstanding and is silent at quiescence — this depends on kernel readiness semantics (E6/E7), which the model does not contain; it is checked on the real kernel by well-behaved histories (no error, yield-once, full delivery, not ready at quiescence).",
+         "Level: proof for the safety core, exploration on the real kernel for no-stall/no-spin. Trusted: Lean kernel; hand model checked differentially; E1,E4-E8,A1."),
+ "C09": ("Theorems: poll_returns — under the invariant, for ANY admissible batch with ANY flags and ANY read/write results the poll returns normally or reports shutdown (only with the kill event): no failure, no panic; all_events_handled (no early return drops work, the sweep runs); hangup_closes, failed_write_closes, closed_and_answered_is_swept with C10.reaped (a dead connection is released by the first completed poll after everything yielded from it is answered); others_unaffected (an event of one connection changes nothing about another); stale_out_is_harmless (F2/F4). "
+         "Correspondence: witness histories with misbehaving clients and late answers on the real kernel, F2 regression.",
+         "Trusted: Lean kernel; hand model checked differentially; E1, E4-E6, A1. The property was FALSE on the pinned tree (F2, F3); the fix commits are part of /repo."),
+ "C10": ("Theorems: the server invariant (at most 10 connections, unique descriptors and identities, per-connection invariants, live tokens, in-flight = outstanding tokens) holds initially and is preserved by every poll, respond and flush; refuse_at_capacity (the refused client gets the fixed 503 message and NOTHING else changes), accept_below_capacity, server_full_message (status 503, Connection: close, Content-Length 40 = length of its body, by evaluation of the literal), reaped / closed_released_when_answered / only_done_are_dropped (connections leave the table exactly when closed, drained and fully answered). "
+         "Correspondence: fill/drain cycles around 9-13 clients with descriptor counts on the real kernel; the 503 literal compared byte for byte with what refused clients read; F3 regression.",
+         "Trusted: Lean kernel; hand model checked differentially; E1, E4, A1; close(2) on drop is Rust semantics."),
+ "C18": ("Theorems: kill_wins — if the kill event is in the batch the poll reports shutdown, in every state satisfying the invariant and whatever else is in the batch; registered_fits_batch — listener + kill switch + connections <= 12 = the event array, so (E6, E8) a signalled kill switch is in every batch; transparent — without the kill event the poll does exactly the same with and without a registered kill switch; kill_switch_kept. "
+         "Correspondence: kill switch signalled at random points and in the aimed all-descriptors-ready states (10 connections with input + waiting client + kill signalled last), then repeated polling gated by readiness.",
+         "Trusted: Lean kernel; hand model checked differentially; E4, E6, E8."),
 }
 TECH = "Lean 4 theorems over a hand-written model + differential correspondence check (Rust harness vs compiled Lean driver)"
 
